@@ -15,17 +15,21 @@ import (
 // acc accumulates what one case observed; flushed into the report once per case (keeps the
 // report's mutex out of the inner loops).
 type acc struct {
-	c          *vkit.Case
-	r          *vkit.Report
-	evals      int
-	counts     map[[2]string]int
-	dist       []string
-	requests   int
-	endRe      int
-	garbageSeq int // see gProbeIter
-	integ      int // argument-integrity probes
-	posChecks  int // source-position checks (position.go)
-	failed     bool
+	c        *vkit.Case
+	r        *vkit.Report
+	evals    int
+	counts   map[[2]string]int
+	dist     []string
+	requests int
+	endRe    int
+	// quiet: a failure is remembered (quietSig, quietMsg) instead of being reported; used for
+	// behaviour that is recorded, not judged.
+	quiet              bool
+	quietSig, quietMsg string
+	garbageSeq         int // see gProbeIter
+	integ              int // argument-integrity probes
+	posChecks          int // source-position checks (position.go)
+	failed             bool
 	// sampleAt = k > 0: the k-th non-trivial triple of this case is written out as a sample (set by
 	// main for a few designated cases, so that the samples do not depend on scheduling).
 	sampleAt int
@@ -183,6 +187,10 @@ func (a *acc) fail(kind, flavour, op, what string, w map[string]any) {
 		return
 	}
 	a.failed = true
+	if a.quiet {
+		a.quietSig, a.quietMsg = kind+":"+flavour+"."+op, what
+		return
+	}
 	if w == nil {
 		w = map[string]any{}
 	}
